@@ -351,6 +351,8 @@ def op_line(module, scn, op):
         return "AS enc %d %s" % (op["slot"], op["syn"])
     if a == "AllocSweepDec":
         return "AS dec %s X%s" % (op["syn"], bytes(op["bytes"]).hex())
+    if a == "TruncSweep":
+        return "TS %s %s" % (op["syn"], "W" if op.get("bytes") is None or op.get("wire") else "X" + bytes(op["bytes"]).hex())
     if a == "EncodeCbSweep":
         return "ECS %d %s %s" % (op["slot"], op["syn"], op["mode"])
     raise Infra("no driver command for op " + a)
